@@ -29,6 +29,9 @@ fn usage() -> ! {
 }
 
 pub fn quiet_panics() {
+    if std::env::var("VERIF_SHOW_PANICS").is_ok() {
+        return;
+    }
     std::panic::set_hook(Box::new(|_| {}));
 }
 
